@@ -269,6 +269,28 @@ def case_scramble_history(col, p):
             if not worst <= 1e-11:
                 col.violation('C10:scramble_pop_ids:%s' % ('noncontiguous_view' if p.get('view') else 'result_depends_on_history'),
                               dict(p, sequences=[seq], position=k), {'maxrel': worst})
+            if p.get('view'):
+                continue
+            # the folded spectrum: scrambling is defined on the unfolded counts and folded back, so that it commutes with folding whatever
+            # the parity of the pooled sample size (tie entries - exactly half of all chromosomes derived - stay)
+            ff = dadi.Spectrum(data).fold()
+            outf = ff.scramble_pop_ids()
+            col.tick(transitions=1)
+            n += 1
+            fd, fm = RS.fold(RS.fr_array(data), _cm(np.zeros(shape, bool)))
+            ud, um = RS.unfold(fd, fm)
+            pooled = [Fraction(0)] * (N + 1)
+            for idx in idxs:
+                if not um[idx]:
+                    pooled[sum(idx)] += ud[idx]
+            sd = RS.zeros(shape)
+            for idx in idxs:
+                w = Fraction(1)
+                for n_k, d_k in zip(ns, idx):
+                    w *= comb(n_k, d_k)
+                sd[idx] = w / comb(N, sum(idx)) * pooled[sum(idx)]
+            exd, exm = RS.fold(sd, _cm(np.zeros(shape, bool)))
+            _cmp(col, 'C10:scramble_pop_ids:folded', dict(p, sequences=[seq], position=k), outf, exd, exm, 'skip', folded=True, tol=1e-11)
     col.tick(states=n, traces=n)
     col.distinct('nontrivial', ('scramble_history', len(p['sequences']), tuple(map(tuple, p['sequences'][0])), bool(p.get('view'))))
 
